@@ -110,7 +110,8 @@ pub fn main(args: &[String]) {
             let len = src.len();
             // extreme and random configurations, ranges of every kind
             let mut cfgs: Vec<Vec<String>> = vec![vec![format!("syntax={}", knobs.syn)]];
-            cfgs.push(vec![format!("syntax={}", knobs.syn), "column_width=1".into(), format!("indent_width={}", 1 + rng.below(16)), "indent_type=Spaces".into()]);
+            cfgs.push(vec![format!("syntax={}", knobs.syn), "column_width=1".into(), format!("indent_width={}", rng.below(17)), "indent_type=Spaces".into()]);
+            cfgs.push(vec![format!("syntax={}", knobs.syn), "column_width=0".into(), "indent_width=0".into(), format!("indent_type={}", if rng.chance(1, 2) { "Spaces" } else { "Tabs" })]);
             cfgs.push(vec![format!("syntax={}", knobs.syn), "column_width=max".into(), format!("indent_width={}", 1 + rng.below(16))]);
             cfgs.push(crate::run::random_config(&mut rng, knobs.syn, true));
             for (c, words) in cfgs.iter().enumerate() {
